@@ -87,6 +87,8 @@ var concCases = []concCase{
 	{`^(foo|bar)\d+`, []string{"foo12", "bar", "baz1"}},
 	{`(\d{4})-(\d{2})-(\d{2})`, []string{"on 2026-09-23 and 1999-01-02", "20260923"}},
 	{`x*`, []string{"axxb", ""}},
+	// adaptive DFA -> NFA strategy (UseBoth): enumeration loops that end with a search that finds nothing
+	{`[0-9a-f]{4,8}-[0-9a-f]{4}`, []string{"id 12ab34cd-ef01 and 0000-1111 x", "dead-beef cafe-f00d 1234-5678", "no ids here"}},
 }
 
 var concAPIs = []func(re *coregex.Regex, h string) string{
@@ -96,6 +98,20 @@ var concAPIs = []func(re *coregex.Regex, h string) string{
 	func(re *coregex.Regex, h string) string { return fmt.Sprint(re.FindStringSubmatchIndex(h)) },
 	func(re *coregex.Regex, h string) string { return fmt.Sprint(re.CountString(h, -1)) },
 	func(re *coregex.Regex, h string) string { return re.ReplaceAllString(h, "<$0>") },
+	// the replace / iterator loops reach the engine through FindIndicesAt and FindSubmatchAt, not through FindAll
+	func(re *coregex.Regex, h string) string { return re.ReplaceAllLiteralString(h, "#") },
+	func(re *coregex.Regex, h string) string {
+		return re.ReplaceAllStringFunc(h, func(m string) string { return "[" + m + "]" })
+	},
+	func(re *coregex.Regex, h string) string {
+		var sb strings.Builder
+		for m := range re.AllStringIndex(h) {
+			fmt.Fprint(&sb, m)
+		}
+		return sb.String()
+	},
+	func(re *coregex.Regex, h string) string { return fmt.Sprint(re.FindAllStringSubmatchIndex(h, 2)) },
+	func(re *coregex.Regex, h string) string { return fmt.Sprint(re.Split(h, -1)) },
 }
 
 func runPoolSched(args []string) {
